@@ -128,6 +128,8 @@ class Chk(list):
         self.append(("%s:%s:%s" % (self.kind, self.op, aspect), "%s.%s: %s" % (self.kind, self.op, what)))
 
     def eq(self, aspect: str, label: str, got, exp) -> bool:
+        if got == exp:
+            return True
         if norm(got) != norm(exp):
             self.bad(aspect, "%s = %r, reference model says %r" % (label, got, exp))
             return False
@@ -1024,48 +1026,73 @@ def make_system(desc: dict):
 
 
 def e1_systems(thorough: bool) -> List[dict]:
+    """quick: 3 keys, 2 values per key; thorough = quick + a wider alphabet (4th key, larger caps, cost 3, ttl 2)
+    with one value per key where the graph would otherwise explode (value replacement is covered by the quick part)"""
     out: List[dict] = []
-    if thorough:
-        keys, costs, vals = ["a", "b", "c", "d"], [0, 1, 2, 3, 5], ["", "'"]
-        ents, byts = [0, 1, 2, 3], [0, 3, 4, 6]
-    else:
-        keys, costs, vals = ["a", "b", "c"], [0, 1, 2, 5], ["", "'"]
-        ents, byts = [0, 1, 2], [0, 3, 4]
-    for me in ents:
-        for mb in byts:
-            out.append({"sys": "lrubytes", "me": me, "mb": mb, "keys": keys, "costs": costs, "vals": vals})
-    mxs = [0, 1, 2, 3] if thorough else [0, 1, 2]
-    ttls = [0, 1, 2] if thorough else [0, 1]
-    tkeys = ["a", "b", "c"]
-    for mx in mxs:
-        for ttl in ttls:
-            out.append({"sys": "nscache", "mx": mx, "ttl": ttl, "keys": tkeys, "vals": ["", "'"]})
-    # LRUCache: one hashable, one tuple and two unhashable keys that denote the same JSON object / list
-    lkeys = ["a", ["~t", "v", 1], ["c"]] + ([{"x": 1, "y": [2]}] if thorough else [])
+    two = ["", "'"]
+    # ---- quick part -------------------------------------------------------------------------------
+    keys, costs = ["a", "b", "c"], [0, 1, 2, 5]
+    for me in (0, 1, 2):
+        for mb in (0, 3, 4):
+            out.append({"sys": "lrubytes", "me": me, "mb": mb, "keys": keys, "costs": costs, "vals": two})
+    for mx in (0, 1, 2):
+        for ttl in (0, 1):
+            out.append({"sys": "nscache", "mx": mx, "ttl": ttl, "keys": keys, "vals": two})
+    # LRUCache keys: a string, a tuple, an unhashable list (identified by its canonical JSON)
+    lkeys = ["a", ["~t", "v", 1], ["c"]]
     for ctor in sorted(LRU_CTOR):
-        for mx in mxs:
-            for ttl in ttls:
-                if ctor != "max_entries+ttl_s" and not thorough and (mx, ttl) not in ((1, 1), (2, 0)):
+        for mx in (0, 1, 2):
+            for ttl in (0, 1):
+                if ctor != "max_entries+ttl_s" and (mx, ttl) not in ((1, 1), (2, 0)):
                     continue
-                out.append({"sys": "lrucache", "ctor": ctor, "mx": mx, "ttl": ttl, "keys": lkeys, "vals": ["", "'"]})
+                out.append({"sys": "lrucache", "ctor": ctor, "mx": mx, "ttl": ttl, "keys": lkeys, "vals": two})
     mkeys = [["~t", "v", "a"], ["~t", "v", {"q": 1}]]
-    for mx in ([0, 1, 2] if True else []):
-        for ttl in ttls:
+    for mx in (0, 1, 2):
+        for ttl in (0, 1):
             out.append({"sys": "cachemgr", "mx": mx, "ttl": ttl, "nss": ["n1", "n2"], "keys": mkeys,
-                        "vals": ["", "'"] if (thorough or mx < 2 or ttl == 0) else [""]})
-    dkeys = ["a", "b", "c", "d"] if thorough else ["a", "b", "c"]
-    for cap in ([0, 1, 2, 3] if thorough else [0, 1, 2]):
+                        "vals": two if (mx < 2 or ttl == 0) else [""]})
+    for cap in (0, 1, 2):
         for uog in (True, False):
             for uop in (True, False):
-                out.append({"sys": "detlru", "cap": cap, "uog": uog, "uop": uop, "keys": dkeys, "vals": ["", "'"]})
-    skeys = ["a", "b", "c", "d", "e"] if thorough else ["a", "b", "c", "d"]
+                out.append({"sys": "detlru", "cap": cap, "uog": uog, "uop": uop, "keys": keys, "vals": two})
     for cls in ("lruset", "ringlru"):
-        for cap in ([0, 1, 2, 3, 4] if thorough else [0, 1, 2, 3]):
-            out.append({"sys": cls, "cap": cap, "keys": skeys})
-    rkeys = ["a", "b", "c", "d"] if thorough else ["a", "b", "c"]
-    ext = [p for p in itertools.product(rkeys[:3], repeat=2)] + [("a", "b", "a"), ("a", "a", "a", "a", "b")]
-    for k in ([0, 1, 2, 3, 4] if thorough else [0, 1, 2, 3]):
-        out.append({"sys": "ring", "k": k, "keys": rkeys, "extends": [list(e) for e in ext]})
+        for cap in (0, 1, 2, 3):
+            out.append({"sys": cls, "cap": cap, "keys": ["a", "b", "c", "d"]})
+    ext = [list(p) for p in itertools.product(keys, repeat=2)] + [["a", "b", "a"], ["a", "a", "a", "a", "b"]]
+    for k in (0, 1, 2, 3):
+        out.append({"sys": "ring", "k": k, "keys": keys, "extends": ext})
+    if not thorough:
+        return out
+    # ---- thorough extension -----------------------------------------------------------------------
+    keys4, costs5 = ["a", "b", "c", "d"], [0, 1, 2, 3, 5]
+    for me in (0, 1, 2, 3):
+        for mb in (0, 3, 4, 6):
+            if me == 0 and mb == 0:
+                continue
+            out.append({"sys": "lrubytes", "me": me, "mb": mb, "keys": keys4, "costs": costs5, "vals": [""]})
+    for mx in (1, 2, 3):
+        for ttl in (0, 1, 2):
+            out.append({"sys": "nscache", "mx": mx, "ttl": ttl, "keys": keys4, "vals": two if mx < 3 else [""]})
+    lkeys4 = lkeys + [{"x": 1, "y": [2]}]
+    for mx in (1, 2, 3):
+        for ttl in (0, 1, 2):
+            out.append({"sys": "lrucache", "ctor": "max_entries+ttl_s", "mx": mx, "ttl": ttl, "keys": lkeys4,
+                        "vals": two if mx < 3 else [""]})
+    for ctor in ("capacity+ttl_sec", "max_entries+ttl"):
+        out.append({"sys": "lrucache", "ctor": ctor, "mx": 2, "ttl": 2, "keys": lkeys, "vals": two})
+    mkeys3 = mkeys + ["plain"]
+    for mx, ttl, vals in ((2, 1, two), (2, 2, [""]), (1, 2, two), (3, 0, [""])):
+        out.append({"sys": "cachemgr", "mx": mx, "ttl": ttl, "nss": ["n1", "n2"], "keys": mkeys if vals == two else mkeys3, "vals": vals})
+    for cap in (1, 2, 3):
+        for uog in (True, False):
+            for uop in (True, False):
+                out.append({"sys": "detlru", "cap": cap, "uog": uog, "uop": uop, "keys": keys4, "vals": two})
+    for cls in ("lruset", "ringlru"):
+        for cap in (2, 4, 5):
+            out.append({"sys": cls, "cap": cap, "keys": ["a", "b", "c", "d", "e", "f"]})
+    ext4 = [list(p) for p in itertools.product(keys4[:3], repeat=2)] + [["a", "b", "a"], ["d", "d", "d", "d", "d", "a"]]
+    for k in (2, 4, 5):
+        out.append({"sys": "ring", "k": k, "keys": keys4, "extends": ext4})
     return out
 
 
